@@ -34,7 +34,9 @@
 // adopted midway" cases (midway.go): histories whose later commits are already
 // what the import would produce, migrated by import --include=<tracked
 // pattern> / import --fixup and then exported again (coordinates
-// lfs-adopted-midway/import-include, /fixup, /export). VERIF_C12_CASE=<i> runs one case, VERIF_C12_KEEP=1 keeps
+// lfs-adopted-midway/import-include, /fixup, /export) and import --fixup over
+// histories whose attribute state changes through nested .gitattributes files
+// only (nested.go, coordinate fixup-nested-attributes-change). VERIF_C12_CASE=<i> runs one case, VERIF_C12_KEEP=1 keeps
 // its scratch directory (debugging / replay aid).
 //
 // Weakest-reading choices (not judged): reflogs, refs/original, unreachable
@@ -63,7 +65,7 @@ import (
 
 type caseSpec struct {
 	Idx      int
-	Mode     string // import-include import-above import-all import-fixup import-no-rewrite export roundtrip midway-include midway-fixup
+	Mode     string // import-include import-above import-all import-fixup import-no-rewrite export roundtrip midway-include midway-fixup fixup-nested
 	RefSel   string // everything default default-remote include-ref branch-args
 	Sel      selection
 	AboveArg string
@@ -114,6 +116,9 @@ func (s *caseSpec) class() string {
 	sel := selForm(s.Sel)
 	if s.Above > 0 {
 		sel = "above"
+	}
+	if s.Gen.Nested != nil {
+		sel = "root-attrs-" + s.Gen.Nested.Root
 	}
 	return fmt.Sprintf("%s/%s/%s/%s", s.Mode, s.RefSel, sel, t)
 }
@@ -272,6 +277,25 @@ func plan(run *evid.Run, idx int) *caseSpec {
 // nBase is the number of cases of the 12-way rotation; the indices from nBase on are the
 // "LFS adopted midway" cases.
 var nBase int
+
+// nMid is the number of midway cases; the indices from nBase+nMid on are the --fixup cases whose
+// attribute state changes through nested .gitattributes files only (nested.go).
+var nMid int
+
+// planNested: k-th nested-attributes case: (root file variant, ref selection) rotate with k and the seed.
+func planNested(run *evid.Run, idx, k int) *caseSpec {
+	r := rand.New(rand.NewSource(run.Seed*1000003 + int64(idx)*7919 + 12))
+	s := &caseSpec{Idx: idx, r: r, HeadPick: 100, Mode: "fixup-nested", Trigger: "fixup-nested-attributes-change"}
+	rot := int(run.Seed%97) + k
+	s.RefSel = []string{"default", "everything"}[(rot/3)%2]
+	s.Gen.Nested = &NestedOpt{
+		Root:    []string{"absent", "unrelated", "tracks"}[rot%3],
+		Events:  6 + r.Intn(5),
+		Control: []int{0, 0, 1, 2}[r.Intn(4)],
+		Merge:   r.Intn(2) == 0,
+	}
+	return s
+}
 
 var midwayCombos = []struct{ mode, refsel string }{
 	{"midway-include", "everything"},
@@ -491,7 +515,9 @@ func selArgs(s selection) []string {
 
 func runCase(run *evid.Run, idx int) *caseCtx {
 	var spec *caseSpec
-	if idx >= nBase {
+	if idx >= nBase+nMid {
+		spec = planNested(run, idx, idx-nBase-nMid)
+	} else if idx >= nBase {
 		spec = planMidway(run, idx, idx-nBase)
 	} else {
 		spec = plan(run, idx)
@@ -612,6 +638,15 @@ func runCase(run *evid.Run, idx int) *caseCtx {
 		finV := loadView(env, g.Dir)
 		j2 := c.judgeOp(midV, finV, o2)
 		c.roundTrip(oldV, finV, j1.fwd, j2.fwd, spec.Sel)
+	case "fixup-nested":
+		run.Count("nested_attr_histories", 1)
+		run.Count("nested_attr_events_root_file_untouched", int64(g.NestedEvents))
+		o := op{Kind: "import", Fixup: true}
+		refArgs := c.midwayRefArgs(&o)
+		c.pathTrig = spec.Trigger
+		if c.migrate(g.Dir, append([]string{"import", "--yes", "--fixup"}, refArgs...)...) {
+			c.judgeOp(oldV, loadView(env, g.Dir), o)
+		}
 	case "fixup-after-export":
 		// The two preparatory commands are judged by other modes; here only the final --fixup is.
 		if !c.migrate(g.Dir, "import", "--yes", "--everything", "--include=*.dat") {
@@ -681,7 +716,7 @@ func main() {
 	if os.Getenv("VERIF_C12_KEEP") == "" {
 		defer sbx.RemoveBase()
 	}
-	run.Rule = "seeded repositories built with git plumbing (linear, branching, 2-parent and octopus merges, orphan roots, lightweight / annotated / tag-of-tag tags, symlinks and executables whose names match the selections, empty files, gitlinks, nested .gitattributes, *.bin files already in LFS through the clean filter, raw files under LFS attributes, distinct author/committer identities, dates and zones, multi-line messages, one exotic commit feature in a third of the cases) x one migrate command: import --include/--exclude (forms *.ext, dir/*.ext, exact path, dir/**), import --above, import (all files), import --fixup (attribute variants), import --no-rewrite, export --include/--exclude, export after import; plus histories that adopt LFS midway (raw files first, then exactly the line `git lfs track <pattern>` writes and every matching file re-added through the clean filter, later commits already correct, files committed raw although tracked and repaired later, topic merge, legacy branch, tags) x {import --include=<pattern>, import --fixup} x {--everything, current branch, --include-ref} followed by export --include=<pattern>; ref selection in {--everything, current branch, current branch minus remote refs, --include-ref/--exclude-ref, positional branches}. Class = (mode, ref selection, pattern forms, special coordinate)."
+	run.Rule = "seeded repositories built with git plumbing (linear, branching, 2-parent and octopus merges, orphan roots, lightweight / annotated / tag-of-tag tags, symlinks and executables whose names match the selections, empty files, gitlinks, nested .gitattributes, *.bin files already in LFS through the clean filter, raw files under LFS attributes, distinct author/committer identities, dates and zones, multi-line messages, one exotic commit feature in a third of the cases) x one migrate command: import --include/--exclude (forms *.ext, dir/*.ext, exact path, dir/**), import --above, import (all files), import --fixup (attribute variants), import --no-rewrite, export --include/--exclude, export after import; plus histories that adopt LFS midway (raw files first, then exactly the line `git lfs track <pattern>` writes and every matching file re-added through the clean filter, later commits already correct, files committed raw although tracked and repaired later, topic merge, legacy branch, tags) x {import --include=<pattern>, import --fixup} x {--everything, current branch, --include-ref} followed by export --include=<pattern>; plus --fixup histories whose attribute state changes between consecutive commits only through nested .gitattributes files (sub/, sub/deep/, a directory with a space, a merged side branch; states absent / track / empty / !filter / -filter; root file absent, unrelated or tracking; root-file changes as control; fresh paths and contents per attribute state); ref selection in {--everything, current branch, current branch minus remote refs, --include-ref/--exclude-ref, positional branches}. Class = (mode, ref selection, pattern forms, special coordinate)."
 	run.Assumptions = []string{
 		"pattern semantics of --include/--exclude are those of .gitattributes (man page); only the forms *.ext, dir/*.ext, exact anchored path, dir/** are generated",
 		"the generator creates no pointer look-alikes and no non-canonical pointers; LFS objects of the original history are all in the local store",
@@ -690,7 +725,8 @@ func main() {
 		"git 2.39.5",
 	}
 	nBase = run.N(36, 240)
-	n := nBase + run.N(6, 40) // + "LFS adopted midway" cases
+	nMid = run.N(6, 40)              // "LFS adopted midway" cases
+	n := nBase + nMid + run.N(6, 36) // + --fixup over nested attribute changes
 	if os.Getenv("VERIF_C12_CASE") == "" {
 		run.SetMinEvaluations(n / 2)
 	}
